@@ -24,7 +24,9 @@ fn live_files(sim: &Sim, c: &WsCase) -> Vec<(String, String)> {
 fn fresh_deterministic(files: &[(String, String)], qs: &[String], strict: bool) -> bool {
     let d1 = dump(&fresh(files, strict), qs);
     let d2 = dump(&fresh(files, strict), qs);
-    d1 == d2
+    // … and must not depend on the insertion history of the hash maps (C11)
+    let d3 = dump(&fresh_perturbed(files, strict), qs);
+    d1 == d2 && d1 == d3
 }
 
 #[derive(Clone)]
@@ -71,32 +73,63 @@ fn dump_failure(prefix: &str, before: &BTreeMap<String, Vec<String>>, after: &BT
 /// the open findings, each keyed by an input predicate AND the symptom kinds its root cause explains
 fn finding_for(c: &WsCase, symptom: &str) -> Option<&'static str> {
     // LuaPropertyIndex: whole property of a shared TypeDecl owner dropped / last writer wins
-    const PROPERTY: &[&str] = &["hover-doc", "deprecated-diag", "count:property"];
-    // globals declared in several files: declaration / overload order and table-vs-member typing follow analysis order
-    // (incl. one more/less `owner_members` entry: the member table of `G = G or {}` is owned by the table element or
-    // by the global path depending on which file was analysed last; bounded, does not grow with repetitions)
-    const GLOBAL: &[&str] = &["global-type", "global-decl", "globals", "global-member-type", "global-type-in-diag", "global-own-member-list", "count:member.owner_members+1",
-        // one member of the multiply-declared global gains (or loses) its owner: one Owner item, one current-owner
-        // entry, one item under an existing owner
-        "count:member.in_filed.items+1", "count:member.member_current_owner+1", "count:member.owner_members.items+1"];
+    const PROPERTY: &[&str] = &["hover-doc", "deprecated-diag"];
+    // globals declared in several files: declaration / overload order, table-vs-member typing and which declaration's
+    // table the `G.field` members attach to follow the analysis order
+    const GLOBAL: &[&str] = &["global-type", "global-decl", "globals", "global-member-type", "global-type-in-diag", "global-own-member-list", "global-member-list"];
     // merge_def_type_with_table re-owns another file's members to the class; never undone
     const BOUND: &[&str] = &["undefined-field-diag", "type-members", "required-field-type"];
-    // one re-owned member = one more owner item under the other file, one more owner / owner item
-    let bound_count = ["count:member.in_filed.items+", "count:member.owner_members+", "count:member.owner_members.items+"].iter().any(|p| symptom.starts_with(p));
-    if class_bound_to_required_table(c) && (BOUND.contains(&symptom) || bound_count) {
-        return Some("class-bound-to-required-table/member-reowning");
+    if let Some(counts) = parse_counts(symptom) {
+        return explain_counts(c, &counts);
     }
-    // members of a global table contributed by another file are migrated to the table's Element owner; when the
-    // declaring file is edited / removed that owner entry (keyed by the old table) survives with the foreign members
-    let stale_owner_count = ["count:member.in_filed.items+", "count:member.owner_members+", "count:member.owner_members.items+"].iter().any(|p| symptom.starts_with(p));
-    if foreign_members_of_global_table(c) && stale_owner_count {
-        return Some("foreign-members-of-global-table/stale-table-owner");
+    if class_bound_to_required_table(c) && BOUND.contains(&symptom) {
+        return Some("class-bound-to-required-table/member-reowning");
     }
     if type_shared_across_files(c) && PROPERTY.contains(&symptom) {
         return Some("type-in-several-files/doc-property");
     }
     if global_shared_across_files(c) && GLOBAL.contains(&symptom) {
         return Some("global-in-several-files/analysis-order");
+    }
+    None
+}
+
+/// grown entry counts are explained only by these exact patterns (property.* keys are split off first when a type
+/// is declared in several files):
+/// * class bound to a required table: only member.{in_filed.items, owner_members, owner_members.items} grow;
+/// * stale table owner (members of a global table contributed by another file; the declaring file is edited or removed):
+///   the stale owner holds foreign members: member.owner_members.items +m (m ≥ 1), member.owner_members +k (0 ≤ k ≤ m)
+///   and optionally member.in_filed.items;
+/// * global declared in several files: exactly member.owner_members +1, or exactly
+///   {member.in_filed.items +1, member.member_current_owner +1, member.owner_members.items +1} (one member gains its owner).
+fn explain_counts(c: &WsCase, counts: &[(String, i64)]) -> Option<&'static str> {
+    let (prop, rest): (Vec<_>, Vec<_>) = counts.iter().cloned().partition(|(k, _)| k.starts_with("property."));
+    if !prop.is_empty() && !type_shared_across_files(c) {
+        return None;
+    }
+    if rest.is_empty() {
+        return Some("type-in-several-files/doc-property");
+    }
+    let get = |k: &str| rest.iter().find(|(x, _)| x == k).map(|x| x.1);
+    let only = |keys: &[&str]| rest.iter().all(|(k, _)| keys.contains(&k.as_str()));
+    let member3 = ["member.in_filed.items", "member.owner_members", "member.owner_members.items"];
+    if class_bound_to_required_table(c) && only(&member3) {
+        return Some("class-bound-to-required-table/member-reowning");
+    }
+    if foreign_members_of_global_table(c) && only(&member3) {
+        // a stale owner holds >= 1 foreign member; the number of owners can be net unchanged when another owner of the
+        // edited file disappears in the same step
+        if get("member.owner_members.items").unwrap_or(0) >= 1 && get("member.owner_members.items").unwrap_or(0) >= get("member.owner_members").unwrap_or(0) {
+            return Some("foreign-members-of-global-table/stale-table-owner");
+        }
+    }
+    if global_shared_across_files(c) {
+        if rest.len() == 1 && get("member.owner_members") == Some(1) {
+            return Some("global-in-several-files/analysis-order");
+        }
+        if rest.len() == 3 && get("member.in_filed.items") == Some(1) && get("member.member_current_owner") == Some(1) && get("member.owner_members.items") == Some(1) {
+            return Some("global-in-several-files/analysis-order");
+        }
     }
     None
 }
@@ -452,7 +485,7 @@ fn oracle_c09(c: &WsCase, report: &mut Report) -> Fails {
     // the path <-> id maps of the Vfs keep closed files (ids are never reused); not indexed state
     let ignore = ["vfs.file_id_map", "vfs.file_path_map"];
     if let Some(x) = diff_sizes(&sizes(&f), &sizes(&sim.a), &ignore) {
-        fails.push_s(format!("after reindex the index holds different amounts of state than a fresh analysis of the same files: {x} (fresh vs reindexed)"), vec!["count:reindex".into()]);
+        fails.push_s(format!("after reindex the index holds different amounts of state than a fresh analysis of the same files: {x} (fresh vs reindexed)"), vec!["counts:reindex+0".into()]);
     }
     dump_failure("after reindex an observable result differs from a fresh analysis of the same files (fresh vs reindexed)", &dump(&f, &qs), &dump(&sim.a, &qs), &mut fails);
     fails
